@@ -447,21 +447,35 @@ class SymInt:
 
 
 def concretize(v, what="int"):
-    """fork over all feasible values of a SymInt (bounded range)."""
+    """fork over all feasible values of a SymInt. Small intervals: ascending linear scan; large intervals: bisection
+    on the interval (each feasible value still gets its own path; infeasible halves are pruned by the solver)."""
     if not isinstance(v, SymInt):
         return v
-    if v.hi - v.lo > 70000:
-        raise Unsupported("concretize over huge range")
     ctx = Ctx.cur
-    for k in range(v.lo, v.hi + 1):
-        c = SymInt.cmp("==", v, k)
-        if c is True:
-            return k
-        if c is False:
-            continue
-        if ctx.decide(c.e):
-            return k
-    raise PathAbort()
+    lo, hi = v.lo, v.hi
+    if hi - lo <= 24:
+        for k in range(lo, hi + 1):
+            c = SymInt.cmp("==", v, k)
+            if c is True:
+                return k
+            if c is False:
+                continue
+            if ctx.decide(c.e):
+                return k
+        raise PathAbort()
+    while lo < hi:
+        mid = (lo + hi) // 2
+        c = SymInt.cmp("<=", v, mid)
+        if c is True or (c is not False and ctx.decide(c.e)):
+            hi = mid
+        else:
+            lo = mid + 1
+    c = SymInt.cmp("==", v, lo)
+    if c is False:
+        raise PathAbort()
+    if c is not True:
+        ctx.assume(c)
+    return lo
 
 
 def sym_int(name, lo, hi):
@@ -797,23 +811,47 @@ class ModelBytesIO:
     def tell(self):
         return self.pos
 
+    def _setpos(self, p):
+        """positions inside the data are concrete; a symbolic position is kept only when it is provably at or beyond
+        EOF on this path (all such positions behave alike for read()), so a symbolic seek target does not fork once
+        per value"""
+        if isinstance(p, SymInt):
+            if truth(SymInt.cmp(">=", p, len(self.data))):
+                self.pos = p
+                return
+            p = concretize(p)
+        self.pos = p
+
     def seek(self, offset, whence=0):
-        offset = concretize(offset)
         whence = concretize(whence)
         if whence == 0:
-            if offset < 0:
-                raise ValueError("negative seek value %d" % offset)
-            self.pos = offset
+            if truth(compare("<", offset, 0)):
+                self._neg(offset)
+            self._setpos(offset)
         elif whence == 1:
-            self.pos = max(0, self.pos + offset)
+            new = binop("+", self.pos, offset)
+            if truth(compare("<", new, 0)):
+                new = self._neg_rel(new)
+            self._setpos(new)
         elif whence == 2:
-            self.pos = max(0, len(self.data) + offset)
+            new = binop("+", len(self.data), offset)
+            if truth(compare("<", new, 0)):
+                new = self._neg_rel(new)
+            self._setpos(new)
         else:
-            raise ValueError("invalid whence")
+            raise ValueError("invalid whence (%r, should be 0, 1 or 2)" % (whence,))
         return self.pos
+
+    def _neg(self, offset):
+        raise ValueError("negative seek value %s" % (offset if isinstance(offset, int) else "<symbolic>"))
+
+    def _neg_rel(self, new):
+        return 0  # BytesIO clamps relative seeks at 0
 
     def read(self, n=-1):
         size = len(self.data)
+        if isinstance(self.pos, SymInt):
+            return SymBytes([])  # position is at/after EOF on this path
         rem = max(0, size - self.pos)
         if n is None:
             k = rem
@@ -828,6 +866,35 @@ class ModelBytesIO:
         out = SymBytes(self.data.cells[self.pos : self.pos + k])
         self.pos += k
         return out
+
+    def getvalue(self):
+        return self.data
+
+    def close(self):
+        pass
+
+
+class ModelOSFile(ModelBytesIO):
+    """binary file opened with open(path, 'rb'): like BytesIO except that a negative resulting position is
+    OSError(EINVAL) for every whence"""
+
+    def _neg(self, offset):
+        raise OSError(22, "Invalid argument")
+
+    def _neg_rel(self, new):
+        raise OSError(22, "Invalid argument")
+
+    def to_native(self):
+        import os
+        import tempfile
+
+        fd, path = tempfile.mkstemp(prefix="symx-replay-")
+        os.write(fd, bytes(self.data.cells))
+        os.close(fd)
+        f = open(path, "rb")
+        os.unlink(path)
+        f.seek(self.pos)
+        return f
 
 
 class IoShim:
